@@ -10,6 +10,7 @@ import CifModel.Lemmas.StoreTotalS
 import CifModel.Lemmas.StoreWOkQ
 import CifModel.Lemmas.StoreRefineW
 import CifModel.Lemmas.StoreSpecRefine
+import CifModel.Lemmas.StoreSpecWorld
 import CifModel.Lemmas.StoreCodes
 import CifModel.Lemmas.StoreTree
 /-
@@ -1212,33 +1213,41 @@ theorem C04_second_get_packets_refused (w : World) (h : WOk w) (l : Nat) (e : LH
     unfold okLOpen; rw [hl]; simp [hb]
   exact C04_wok_step w (.itOpen l) h hin
 
--- ---- one refinement theorem over histories (for the ops `specStep` covers so far) ---------------------------------------------------
+-- ---- one refinement theorem over histories: all 31 ops ---------------------------------------------------------------------------------
 
 /-- C04_refines: in a world satisfying WOk, an op that keeps to the documented contract does to the documented model with object
-    identities (`absW`, Spec/StoreSpec: every managed CIF as container tree + loops of (category, items, packets)) exactly what
-    `specStep` says, and returns the same result — with no further hypothesis.  Covered so far (`Op.covered`, 24 of the 31 ops): cif_create, cif_destroy,
+    identities (`absW`, Spec/StoreSpec: every managed CIF as container tree + loops of (category, items, packets); every open packet
+    iterator as the abstract iterator `AIter`: its loop, the number of packets passed, "has a current packet", the CIF as it was at
+    creation) exactly what `specStep` says, and returns the same result — with no further hypothesis, for EVERY op of the API
+    (`Op.covered` is `true` everywhere: `Op.covered_all`; the hypothesis of earlier versions is gone): cif_create, cif_destroy,
     create_block, get_block, get_all_blocks, create_frame, get_frame, get_all_frames, get_code, is-block, container_destroy, prune,
     create_loop, get_category_loop, get_item_loop, loop_get_category, loop_set_category, loop_get_names, loop_add_item,
-    loop_add_packet, loop_destroy, get_value, remove_item, get_all_loops (with the names of each loop).  Not yet: set_value
-    (container-local refinement theorems above: `C04_refines_set_value`, `C04_refines_set_value_new`) and the six iterator calls (C06). -/
-theorem C04_refines (w : World) (op : Op) (h : WOk w) (hin : inContract w op = true) (hc : op.covered = true) :
+    loop_add_packet, loop_destroy, get_value, remove_item, get_all_loops (with the names of each loop), set_value (existing item: the
+    value in every packet of its loop; new item: joins the scalar loop, which is created when absent and gets its one packet when it
+    has none; invalid name; NULL value), and the six iterator calls get_packets (also the refused second one), next_packet,
+    update_packet, remove_packet, close, abort. -/
+theorem C04_refines (w : World) (op : Op) (h : WOk w) (hin : inContract w op = true) :
     specStep (absW w) op = some (absW (step w op).1, (step w op).2) :=
-  specStep_refines w op h hin hc
+  specStep_refines w op h hin
 
-/-- … and over whole histories: a history of covered ops that keeps to the contract, started in a world satisfying WOk (the empty
-    world does: `C04_wok_init`), runs on the documented model exactly as on the store model — same final state under `absW`, same
-    result of every call -/
-theorem C04_refines_hist : ∀ (ops : List Op) (w : World), WOk w → inContractHist w ops = true → ops.all Op.covered = true →
+/-- … and over whole histories: ANY history that keeps to the contract, started in a world satisfying WOk (the empty world does:
+    `C04_wok_init`), runs on the documented model exactly as on the store model — same final state under `absW`, same result of
+    every call -/
+theorem C04_refines_hist : ∀ (ops : List Op) (w : World), WOk w → inContractHist w ops = true →
     specRun (absW w) ops = some (absW (run w ops).1, (run w ops).2)
-  | [], _, _, _, _ => rfl
-  | op :: ops, w, h, hc, hcov => by
+  | [], _, _, _ => rfl
+  | op :: ops, w, h, hc => by
     have hc' : (inContract w op && inContractHist (step w op).1 ops) = true := hc
     simp only [Bool.and_eq_true] at hc'
-    simp only [List.all_cons, Bool.and_eq_true] at hcov
     unfold specRun run
-    rw [C04_refines w op h hc'.1 hcov.1]
+    rw [C04_refines w op h hc'.1]
     simp only []
-    rw [C04_refines_hist ops (step w op).1 (C04_wok_step w op h hc'.1) hc'.2 hcov.2]
+    rw [C04_refines_hist ops (step w op).1 (C04_wok_step w op h hc'.1) hc'.2]
+
+/-- from the empty world: the documented model predicts every result of every in-contract history -/
+theorem C04_refines_from_start (ops : List Op) (hc : inContractHist {} ops = true) :
+    specRun {} ops = some (absW (run {} ops).1, (run {} ops).2) :=
+  C04_refines_hist ops {} C04_wok_init hc
 
 -- ---- failure-code agreement with Spec/DataModel (loop level) ---------------------------------------------------------------------
 
